@@ -467,6 +467,25 @@ pub mod knobs {
 
     /// Override the maximum size of a rollback-log segment for stores opened from now on.
     /// 0 restores the built-in constant.
+    static LEAF_CACHE_AMNESIA: std::sync::atomic::AtomicU8 = std::sync::atomic::AtomicU8::new(0);
+    static LEAF_CACHE_CALLS: std::sync::atomic::AtomicU64 = std::sync::atomic::AtomicU64::new(0);
+
+    /// "Forgetful leaf cache": what a cache holds is never guaranteed, so a lookup may miss at any
+    /// time. 0 = off, 1 = leaves with an odd page number are never found, 2 = even ones, 3 = every
+    /// second lookup misses.
+    pub fn set_leaf_cache_amnesia(mode: u8) {
+        LEAF_CACHE_AMNESIA.store(mode, std::sync::atomic::Ordering::SeqCst);
+    }
+
+    pub(crate) fn leaf_cache_forgets(page_number: u32) -> bool {
+        match LEAF_CACHE_AMNESIA.load(std::sync::atomic::Ordering::Relaxed) {
+            1 => page_number % 2 == 1,
+            2 => page_number % 2 == 0,
+            3 => LEAF_CACHE_CALLS.fetch_add(1, std::sync::atomic::Ordering::Relaxed) % 2 == 0,
+            _ => false,
+        }
+    }
+
     pub fn set_rollback_segment_size(bytes: u64) {
         ROLLBACK_SEGMENT_SIZE.store(bytes, Ordering::SeqCst);
     }
